@@ -67,6 +67,19 @@ CHECKS = {
         design_ref='§7 C05',
         note=NOTE_COMMON + 'Token level: texts are built from canonical lexemes separated by blanks; the reference grammar is the committed transcription of the token sets (drift is reported, not alarmed).',
         technique='TLA+ grammar model (CFG + first-match interpreter) enumerated by TLC, replayed; trace validation'),
+    'C06': dict(
+        category='model_checking',
+        text=('TLC checks on the translation state machine that every behaviour ends in done or the library exception and terminates '
+              '(NoForeignOutcome, Terminates), and on the grammar model that the parser step is whole-or-exception; it enumerates '
+              'C05\'s token sequences and the adversarial workbook descriptors (Gen_C06: title kind x constant kind x formula kind x '
+              'placement, with the admissible outcome set per descriptor). Binding: every enumerated case goes through the real '
+              'code (xlsx -> Parser.write_translation -> Executor(class_file) for descriptors): outcome class must be ok or lib, '
+              'and every ok result must compile, report the workbook\'s titles and sizes, define one callable member per '
+              'translated cell without undefined names, and behave identically when loaded from the written file; nesting-depth '
+              'sweep under a wall-clock limit; random damaged formulas judged by TLC (Trace_C05).'),
+        design_ref='§7 C06',
+        note=NOTE_COMMON + '"never hangs" is a wall-clock bound; finding C06-F1 (exponential backtracking for nesting depth >= 7) is recorded in known_findings.txt.',
+        technique='TLA+ state machine + grammar model (TLC), descriptor/token enumeration replayed through the public file path'),
 }
 
 NOT_APPLICABLE = {}
